@@ -225,3 +225,17 @@ Definition saved_mtime (stat : option (N * Z)) (create_q all_set active : bool) 
   | None => if create_q then m0 else m1
   | Some (_, mtime) => if all_set || negb active then mtime else m3
   end.
+
+(* A session that loaded the resume data and saves again BEFORE the requested check has completed:
+   resume_save_progress declines ("hash not checked": files and bitfield stay as stored);
+   resume_save_uncertain_pieces either leaves the stored uncertain list alone (the repaired code) or
+   erases it and writes this session's — empty — completed list.  [cl], [now]: that session's
+   completed list and time. *)
+Definition unc_kept_flag : bool := (0 <? Params.c10_unc_kept_while_unchecked)%N.
+
+Definition resave_unchecked (r : robj) (cl : list (Z * nat)) (now : Z) : robj :=
+  if (0 <? Params.c10_unc_kept_while_unchecked)%N then r
+  else match uncertain_saved cl now with
+       | [] => mkR (r_map r) (r_files r) (r_bits r) None None
+       | _ => r   (* not reachable: nothing completes before the check *)
+       end.
